@@ -112,6 +112,13 @@ func (t *condTrans) tr(e ast.Expr) (string, string, error) {
 			}
 			return "(" + l + " " + map[token.Token]string{token.LOR: "||", token.LAND: "&&"}[x.Op] + " " + r + ")", "Bool", nil
 		case token.EQL, token.NEQ, token.LSS, token.LEQ, token.GTR, token.GEQ:
+			// an integer literal compared with a signed atom is a signed literal (`l.limit > 0`)
+			if _, isLit := x.Y.(*ast.BasicLit); isLit && lt == "Int" && rt == "Nat" {
+				r, rt = "("+r+" : Int)", "Int"
+			}
+			if _, isLit := x.X.(*ast.BasicLit); isLit && rt == "Int" && lt == "Nat" {
+				l, lt = "("+l+" : Int)", "Int"
+			}
 			if lt != rt || (lt != "Nat" && lt != "Int") {
 				return "", "", fmt.Errorf("operands of %s are not both Nat or both Int", x.Op)
 			}
